@@ -496,6 +496,49 @@ def c02_class_positions(p: str, q: str) -> bool:
     return ok
 
 
+SRC_SHADOW = """
+namespace gt {
+template<TT = {ns::X}>
+class Cls {
+  template<TT = {ns::Y<int>}>
+  std::vector<TT> put(TT item, const std::vector<TT>& items, std::map<int, std::vector<TT::QQ>> deep, TT::QQ member);
+  template<TT = {ns::Y<int>}>
+  static TT Make(std::vector<TT> many);
+  template<TT = {ns::Y<int>}>
+  Cls(const TT& one, std::vector<TT*> several);
+};
+}
+"""
+
+
+def c02_shadowed_parameter(p: str, q: str) -> bool:
+    """
+    A member template (method, static method, constructor) whose parameter is spelled like the class parameter: all
+    occurrences of that spelling in one signature — bare, nested in template arguments at depth 1-2, scoped —
+    designate the SAME concrete type (whichever binding the tool gives precedence).
+    pre: _pre(p, q, LP, LQ) and p != "UU" and q != "UU"
+    pre: not (kf_open('C02-substring') and p in q)
+    post: _
+    """
+    with concrete():
+        mod = parser.Module.parseString(SRC_SHADOW)
+    cls = mod.content[0].content[0]
+    _rename(cls, {"TT": p, "QQ": q})
+    ic = ti.InstantiatedClass(cls, [mk_typename(X)])
+    ok = True
+    for label, sig in (("put", [ic.methods[0].return_type.type1] + [a.ctype for a in ic.methods[0].args.list()]),
+                       ("Make", [ic.static_methods[0].return_type.type1] + [a.ctype for a in ic.static_methods[0].args.list()]),
+                       ("ctor", [a.ctype for a in ic.ctors[0].args.list()])):
+        cpps = [t.to_cpp() for t in sig]
+        chosen = [c for c in ("ns::X", "ns::Y<int>") if all(c in s for s in cpps)]
+        other = {"ns::X": "ns::Y<int>", "ns::Y<int>": "ns::X"}
+        if len(chosen) != 1 or any(other[chosen[0]] in s for s in cpps) or any(p + "::" in s or ("<" + p + ">") in s for s in cpps):
+            ok = _fail(member=label, types=cpps, problem="the occurrences of the parameter are not all replaced by one and the same concrete type")
+            break
+    reached()
+    return ok
+
+
 def c02_function_positions(p: str, q: str) -> bool:
     """
     Free function template: args, pair return with scoped second type, default text untouched.
